@@ -63,7 +63,8 @@ def build(shape, operands, ops, lo=0):
 def operand(rng, i, simple=False):
     V = A.Var
     base = rng.choice([A.Int(rng.randrange(0, 99)), A.Int(-rng.randrange(1, 99)), V("v%d" % i), A.Bool(rng.random() < 0.5),
-                       A.Str("s"), A.Null(), A.lst(A.Int(1)), A.obj(("k", A.Int(1)))])
+                       A.Str("s"), A.Null(), A.lst(A.Int(1)), A.obj(("k", A.Int(1))),
+                       A.FuncE([], False, []) if rng.random() < 0.5 else A.FuncE([V("q")], False, [A.Return(A.Bin("+", V("q"), A.Int(1)))])])
     if simple or rng.random() < 0.5:
         return base
     for _ in range(rng.randrange(1, 3)):
